@@ -99,8 +99,8 @@ class Controller:
 
     def gate(self, sid, kind, dur=0.0):
         fut = asyncio.get_running_loop().create_future()
-        if self.specs.get(sid, {}).get("transport") == "sync":
-            fut.set_result(None)          # ungated simulator: the reply is immediate
+        if self.specs.get(sid, {}).get("transport") == "sync" or self.mode == "off":
+            fut.set_result(None)          # ungated simulator (or a request outside run()): the reply is immediate
             return fut
         if self.timed:
             dur = max(dur, 2.0 ** -30)     # on a real clock even an instant answer takes time
@@ -512,7 +512,7 @@ class ScriptedSim(mosaik_api_v3.Simulator):
                 self.ctl.ev("async_set_ok", self.sid)
             except Exception as e:  # noqa
                 self.ctl.ev("async_err", self.sid, "set_data", type(e).__name__, str(e)[:200],
-                       getattr(e, "remote_type", None))
+                       getattr(e, "remote_type", None), [k.__name__ for k in type(e).__mro__])
                 if act[-1] != "catch" and self.beh.get("reraise", True):
                     raise
         elif kind == "get":
@@ -523,7 +523,7 @@ class ScriptedSim(mosaik_api_v3.Simulator):
                 self.ctl.ev("async_get_ok", self.sid, snapshot(res))
             except Exception as e:  # noqa
                 self.ctl.ev("async_err", self.sid, "get_data", type(e).__name__, str(e)[:200],
-                       getattr(e, "remote_type", None))
+                       getattr(e, "remote_type", None), [k.__name__ for k in type(e).__mro__])
                 if self.beh.get("reraise", True):
                     raise
         elif kind == "event":
@@ -560,10 +560,13 @@ class ScriptedSim(mosaik_api_v3.Simulator):
                         # const_po: a measurement that does not change (the simulator may then hand out the very
                         # same reply object again, see below)
                         data.setdefault(eid, {})[a] = (f"{self.sid}.{eid}.po" if self.beh.get("const_po")
-                                                       else f"{self.sid}.{eid}.po#{k}")
+                                                       else shape(f"{self.sid}.{eid}.po#{k}", k, self.beh.get("vstyle")))
                 elif a == "eo":
                     if (emit >> ei & 1) and self.sub < budget:
-                        data.setdefault(eid, {})[a] = f"{self.sid}.{eid}.eo#{k}"
+                        # events keep a unique token inside (the monitor tells event values apart by equality)
+                        vs = self.beh.get("vstyle")
+                        data.setdefault(eid, {})[a] = shape(f"{self.sid}.{eid}.eo#{k}", k,
+                                                            vs if vs in ("dict", "list") else None)
         fut = self._cyc("future", k, 0)
         bad = self.beh.get("bad_time", {}).get(str(k))
         if bad is not None:
@@ -623,6 +626,31 @@ class ScriptedSimSync(ScriptedSim):
         raise RuntimeError("unreachable")
 
 
+FALSY = [None, 0, "", False, [], {}, 0.0]
+
+
+def shape(tok, k, style):
+    """value shapes (`beh['vstyle']`): every JSON value is valid data for mosaik, not only unique strings.
+    'dict'  - JSON objects whose key sets differ from step to step (a later one lacks a key of an earlier one)
+    'falsy' - every other value is one of None / 0 / "" / False / [] / {} / 0.0, the rest are unique tokens
+    'small' - a tiny domain with repeats (the same number in consecutive steps, returns to old values)
+    'list'  - [token, k]"""
+    if not style:
+        return tok
+    if style == "dict":
+        d = {"tok": tok, ("p" if k % 2 == 0 else "q"): k}
+        if k % 3 == 0:
+            d["r"] = {"nested": k}
+        return d
+    if style == "falsy":
+        return FALSY[(k // 2) % len(FALSY)] if k % 2 else tok
+    if style == "small":
+        return (k // 2) % 3
+    if style == "list":
+        return [tok, k]
+    raise ValueError(style)
+
+
 def eval_bad(bad, time):
     """malformed reply values for C13: ['rel', d] -> time+d ; ['abs', v] -> v ; ['float', d] ; ['str', d] ;
     ['list', d] ; ['none'] ; ['bool', b]"""
@@ -651,6 +679,7 @@ class Result:
     def __init__(self):
         self.outcome = None          # 'returned' | 'exception' | 'deadlock' | 'livelock' | 'runaway' | 'rejected'
         self.exc_type = None
+        self.exc_mro = []           # class names of the exception and its base classes
         self.exc_msg = None
         self.exc_tb = None
         self.trace = []
@@ -665,6 +694,11 @@ class Result:
         self.open_transports = 0
         self.held = []
         self.leftover_names = []
+
+    def is_a(self, name):
+        """the exception that came out of run() is an instance of the class called `name` (a statement that
+        fixes an exception type is met by a subclass, too)"""
+        return name in (self.exc_mro or [self.exc_type])
 
     def steps(self, sid=None):
         return [e for e in self.trace if e[0] == "step_begin" and (sid is None or e[1] == sid)]
@@ -767,9 +801,42 @@ def run_case(case, keep_world=False):
                 else:
                     with world.group():
                         build(child)
+        script = scn.get("script", {})
+        done_conns = set()
+
+        def connect_one(i, c):
+            kw = {}
+            if c.get("shift"):
+                kw["time_shifted"] = c["shift"] if c["shift"] != 1 else True
+            if c.get("weak"):
+                kw["weak"] = True
+            if c.get("init"):
+                kw["initial_data"] = {c["sa"]: init_token(c)}
+            if c.get("async"):
+                kw["async_requests"] = True      # the flag on the same call as the data-flow
+            world.connect(ents[c["src"]][c["se"]], ents[c["dst"]][c["de"]], (c["sa"], c["da"]), **kw)
+            done_conns.add(i)
+
+        if script.get("connect_early"):
+            # scenario scripts may connect as soon as both ends exist, i.e. inside still open `with world.group()`
+            # blocks (nothing in the documentation asks for connecting after the blocks)
+            _build = build
+
+            def build(tree):     # noqa: F811
+                for child in tree:
+                    if isinstance(child, str):
+                        _build([child])
+                        for i, c in enumerate(scn.get("conns", [])):
+                            if i not in done_conns and c["src"] in ents and c["dst"] in ents:
+                                connect_one(i, c)
+                    else:
+                        with world.group():
+                            build(child)
         try:
             build(scn["tree"])
-            for c in scn.get("conns", []):
+            for i, c in enumerate(scn.get("conns", [])):
+                if i in done_conns:
+                    continue
                 kw = {}
                 if c.get("shift"):
                     kw["time_shifted"] = c["shift"] if c["shift"] != 1 else True
@@ -786,6 +853,15 @@ def run_case(case, keep_world=False):
                     world.connect(ents[a[0]][0], ents[a[1]][0], async_requests=True)
             for sid, t in scn.get("initial_events", {}).items():
                 world.set_initial_event(sid, t)
+            if script.get("pre_get_data") and not case.get("faults"):
+                # documented scenario-script usage: query entity data with World.get_data() before the run
+                want = {}
+                for c in scn.get("conns", []):
+                    if c["sa"] in ("po", "eo"):
+                        want.setdefault(ents[c["src"]][c["se"]], set()).add(c["sa"])
+                if want:
+                    ctl.trace.append(("pre_get_data", snapshot(
+                        {e.full_id: v for e, v in world.get_data({e: sorted(a) for e, a in want.items()}).items()})))
         except Exception as e:  # noqa
             res.outcome = "build_error"
             res.exc_type = type(e).__name__
@@ -815,7 +891,19 @@ def run_case(case, keep_world=False):
                 rkw["rt_strict"] = True
             if not ropt.get("lazy_stepping", True):
                 rkw["lazy_stepping"] = False
-            world.run(until=scn["until"], print_progress=False, **rkw)
+            pp = ropt.get("print_progress", False)
+            if pp is False:
+                world.run(until=scn["until"], print_progress=False, **rkw)
+            else:
+                # the documented progress displays (True = one bar, the default; 'individual' = one bar per
+                # simulator) write to stderr: swallowed here
+                import contextlib
+                import io
+                with contextlib.redirect_stderr(io.StringIO()):
+                    if pp is True and ropt.get("print_progress_default"):
+                        world.run(until=scn["until"], **rkw)
+                    else:
+                        world.run(until=scn["until"], print_progress=pp, **rkw)
             res.outcome = "returned"
         except HarnessAbort as e:
             res.outcome = str(e)
@@ -827,6 +915,7 @@ def run_case(case, keep_world=False):
                 elif oe is not None:
                     res.outcome = "exception"
                     res.exc_type = type(oe).__name__
+                    res.exc_mro = [k.__name__ for k in type(oe).__mro__]
                     res.exc_msg = str(oe)
                     res.exc_tb = ""
                 else:
@@ -835,9 +924,10 @@ def run_case(case, keep_world=False):
             import traceback
             res.outcome = "exception"
             res.exc_type = type(e).__name__
+            res.exc_mro = [k.__name__ for k in type(e).__mro__]
             res.exc_msg = str(e)
             res.exc_tb = "".join(traceback.format_exception(e))[-1500:]
-            if type(e).__name__ == "ScenarioError" and not any(x[0] in ("setup_done", "step_begin")
+            if res.is_a("ScenarioError") and not any(x[0] in ("setup_done", "step_begin")
                                                              for x in ctl.trace):
                 res.outcome = "rejected"
         res.shutdown_hang = getattr(ctl, "shutdown_hang", False)
